@@ -552,6 +552,34 @@ impl VisitMut for Normalizer {
         }
     }
 
+    fn visit_expr_method_call_mut(&mut self, mc: &mut syn::ExprMethodCall) {
+        // `a.zip(b.into_iter())` is `a.zip(b)` (zip takes IntoIterator)
+        if (mc.method == "zip" || mc.method == "chain" || mc.method == "extend") && mc.args.len() == 1 {
+            let inner: Option<syn::Expr> = match &mc.args[0] {
+                syn::Expr::MethodCall(a) if a.method == "into_iter" && a.args.is_empty() => Some((*a.receiver).clone()),
+                _ => None,
+            };
+            if let Some(x) = inner {
+                mc.args[0] = x;
+            }
+        }
+        // `(&x).m()` is `x.m()` (method calls take the reference themselves)
+        loop {
+            let inner: Option<syn::Expr> = match &*mc.receiver {
+                syn::Expr::Paren(p) => match &*p.expr {
+                    syn::Expr::Reference(r) if r.mutability.is_none() && matches!(&*r.expr, syn::Expr::Path(_) | syn::Expr::Field(_)) => Some((*r.expr).clone()),
+                    _ => None,
+                },
+                _ => None,
+            };
+            match inner {
+                Some(x) => *mc.receiver = x,
+                None => break,
+            }
+        }
+        visit_mut::visit_expr_method_call_mut(self, mc);
+    }
+
     fn visit_expr_struct_mut(&mut self, st: &mut syn::ExprStruct) {
         visit_mut::visit_expr_struct_mut(self, st);
         // named fields in alphabetical order (initialisers in this code base are side-effect free)
@@ -625,6 +653,55 @@ impl VisitMut for Normalizer {
             }
             if !merged {
                 i += 1;
+            }
+        }
+        // `ITER.try_for_each(|P| { BODY; Ok(()) })?;` / `ITER.for_each(|P| BODY);`  ->  `for P in ITER { BODY }`
+        // (a `?` inside the closure ends the traversal and is propagated by the outer `?`, as it ends the loop)
+        for st in b.stmts.iter_mut() {
+            let rewritten: Option<syn::Stmt> = (|| {
+                let syn::Stmt::Expr(e, Some(_)) = &*st else { return None };
+                let (mc, tried) = match e {
+                    syn::Expr::Try(t) => match &*t.expr {
+                        syn::Expr::MethodCall(mc) => (mc, true),
+                        _ => return None,
+                    },
+                    syn::Expr::MethodCall(mc) => (mc, false),
+                    _ => return None,
+                };
+                let want = if tried { "try_for_each" } else { "for_each" };
+                if mc.method != want || mc.args.len() != 1 || !mc.attrs.is_empty() {
+                    return None;
+                }
+                let syn::Expr::Closure(c) = &mc.args[0] else { return None };
+                if c.inputs.len() != 1 || c.capture.is_some() {
+                    return None;
+                }
+                let pat = match &c.inputs[0] {
+                    syn::Pat::Type(pt) => (*pt.pat).clone(),
+                    other => other.clone(),
+                };
+                let mut body: Vec<syn::Stmt> = match &*c.body {
+                    syn::Expr::Block(bb) => bb.block.stmts.clone(),
+                    other => vec![syn::Stmt::Expr(other.clone(), Some(Default::default()))],
+                };
+                let body_t: String = body.iter().map(|s| sm::tsc(s)).collect();
+                if body_t.contains("return") {
+                    return None;
+                }
+                if tried {
+                    // the closure must end in Ok(())
+                    match body.pop() {
+                        Some(syn::Stmt::Expr(x, None)) if sm::tsc(&x) == "Ok(())" => {}
+                        _ => return None,
+                    }
+                } else if let Some(syn::Stmt::Expr(_, semi @ None)) = body.last_mut() {
+                    *semi = Some(Default::default());
+                }
+                let iter = &mc.receiver;
+                syn::parse2::<syn::Stmt>(quote::quote! { for #pat in #iter { #(#body)* } }).ok()
+            })();
+            if let Some(n) = rewritten {
+                *st = n;
             }
         }
         // `X.extend(ITER.map(|P| BODY));`  ->  `for P in ITER { X.push(BODY); }`
